@@ -47,9 +47,9 @@ EvGone ==
   /\ S' = DropConn(S, Ev.c)
   /\ UNCHANGED devs
 
-EvReset ==  \* a fresh server instance
+EvReset ==  \* start of an independent segment: no connection is open, the driver flushes data and scripts next
   /\ Ev.k = "reset"
-  /\ S' = InitS
+  /\ S' = [InitS EXCEPT !.pass = S.pass, !.dbs = S.dbs, !.scripts = S.scripts, !.aof = S.aof, !.disk = S.disk]
   /\ UNCHANGED devs
 
 (* what the client received is what the server computed for that request (C05) *)
@@ -60,12 +60,16 @@ ClientGot(r, sr) ==
   \/ r.t = "err" /\ sr.t = "err"                              \* wording is not compared
   \/ r.t = "st" /\ sr.t = "st" /\ r.v = OneLine(sr.v)
 
+(* what the spec may look at besides the request: the observed reply, and for scripts the program the harness
+   generated the Lua source from *)
+ObsOf(e) == IF "prog" \in DOMAIN e THEN [t |-> "evalobs", r |-> e.r, prog |-> e.prog, sha |-> e.sha] ELSE e.r
+
 EvCmd ==
   /\ Ev.k = "cmd"
   /\ Ev.c \in DOMAIN S.conns
   /\ LET tm == [t0 |-> Ev.t0, t1 |-> Ev.t1]
      IN \E S1 \in PurgeFor(S, Ev.c, tm) :
-          \E o \in Step(S1, Ev.c, Ev.argv, tm, Ev.r) :
+          \E o \in Step(S1, Ev.c, Ev.argv, tm, ObsOf(Ev)) :
             /\ Match(o.r, Ev.r)
             /\ ("sr" \in DOMAIN Ev => ClientGot(Ev.r, Ev.sr))
             /\ (("sr" \in DOMAIN Ev /\ o.r.t = "blocks") => Ev.sr.t = "none")
@@ -188,7 +192,7 @@ TraceAccepted ==
        /\ LET e == Rec[deepest + 1] S0 == TLCGet(3) IN
             IF e.k = "cmd" /\ e.c \in DOMAIN S0.conns
             THEN LET tm == [t0 |-> e.t0, t1 |-> e.t1] d == S0.conns[e.c].db IN
-                 /\ PrintT(<<"EXPECTED-ONE-OF", {o.r : o \in UNION {Step(S1, e.c, e.argv, tm, e.r) : S1 \in PurgeFor(S0, e.c, tm)}}>>)
+                 /\ PrintT(<<"EXPECTED-ONE-OF", {o.r : o \in UNION {Step(S1, e.c, e.argv, tm, ObsOf(e)) : S1 \in PurgeFor(S0, e.c, tm)}}>>)
                  /\ PrintT(<<"CONN-STATE", S0.conns[e.c]>>)
                  /\ PrintT(<<"DB-BEFORE", S0.dbs[d]>>)
             ELSE PrintT(<<"STATE-BEFORE", S0.conns>>)
